@@ -44,6 +44,11 @@ def fv_of(v):
         return 'Q'
 
 
+def proto_rule(rng):
+    import proto
+    return proto.const_rule(rng.random() < 0.5)
+
+
 def gen_field_value(rng):
     r = rng.random()
     def elems(kind, n):
@@ -52,7 +57,12 @@ def gen_field_value(rng):
             if kind == 's':
                 out.append(gen_str(rng, 3))
             elif kind == 'r':
-                out.append(pick(rng, [Eq(1), Any(), {'a': Eq(2)}, {}]))
+                import collections
+                out.append(pick(rng, [Eq(1), Any(), {'a': Eq(2)}, {},
+                                      # attribute dictionaries of a dict subclass (an OrderedDict read from a config file ...)
+                                      collections.OrderedDict(a=Eq(2)), collections.defaultdict(list, {'a': Eq(3)}),
+                                      # a rule of a user-defined class
+                                      proto_rule(rng)]))
             else:
                 out.append(pick(rng, [5, None, 1.5, ('t',), ['l'], b'b']))
         return out
